@@ -73,6 +73,19 @@ func implHistory(hosts, maps, ops string) string {
 			idkv := strings.SplitN(op[1:], ":", 2)
 			kv := strings.SplitN(idkv[1], "=", 2)
 			heap[idkv[0]][string(unhx(kv[0]))] = decodeVal(kv[1], hs)
+		case 'Q': // the public entry point: only the class of the result is observed, its effects by later operations
+			src, err := formula.ParseSourceCode(unhx(op[1:]))
+			if err != nil {
+				out = append(out, "parse-error")
+				continue
+			}
+			var e error
+			pan, _ := protect(func() { _, e = r.Resolve(context.Background(), src.Expression) })
+			if pan || e != nil {
+				out = append(out, "QE")
+			} else {
+				out = append(out, "QV")
+			}
 		case 'R':
 			src, err := formula.ParseSourceCode(unhx(op[1:]))
 			if err != nil {
@@ -142,6 +155,32 @@ func suiteRunner(o *Out, thorough bool, seed int64) {
 		var ops []string
 		for j := 0; j < 4+r.Intn(26); j++ {
 			ops = append(ops, opsAlpha[r.Intn(len(opsAlpha))])
+		}
+		emit(ops)
+	}
+	// wide numbers (20 to 34 digits, fractions) stored as locals and caller values, passed to builtins and operators,
+	// returned through the public entry point, and read again later: a stored number may never change
+	wide := []string{"D+:1234567890123456789012345678901234:-14", "D+:1234567890123456789015:-1", "D-:66666666666666666666666666666667:-31", "D+:99999999999999999999:0", "D+:25:-1"}
+	maps = "1=" + wmap("w", wide[0], "v", wide[1], "x", "Ii:3") + "~2=" + wmap("w", wide[2], "v", wide[4])
+	wf := []string{"$w = 20/3", "$w = 1/3", "$w = w", "$w = 123456789012345678901.5", "$w", "w", "v", "0, $w", "$w || 0", "x > 0 ? $w : w",
+		"round($w)", "roundBank($w)", "round(w)", "roundBank(v)", "floor($w) + ceil(w)", "abs($w)", "-$w", "$w * 1", "toString($w)", "toString(w)",
+		"$w === 20/3", "$w === 1/3", "$w - 1/3", "w === 123456789012.34567890123456789012345", "[$w, w, v]", "max($w, w)", "min([w, v])", "sum([$w, w])", "toInt($w)", "$w % 7", "$u = $w, $u"}
+	var wops []string
+	for _, f := range wf {
+		wops = append(wops, "R"+hx([]byte(f)), "Q"+hx([]byte(f)))
+	}
+	wops = append(wops, "T1", "T2", "V"+hx([]byte("w"))+"="+wide[3], "G"+hx([]byte("w")), "G"+hx([]byte("$w")), "S"+hx([]byte("w"))+"="+wide[1])
+	for a := 0; a < 8; a++ { // every (assignment, use, read) triple, both entry points
+		for b := 8; b < len(wops)-6; b++ {
+			for _, c := range []int{8, 9, 10, 11, 2 * 20, 2*20 + 1, 2 * 24, len(wops) - 3, len(wops) - 2} {
+				emit([]string{"T1", wops[a], wops[b], wops[c], wops[2*24]})
+			}
+		}
+	}
+	for i := 0; i < n; i++ {
+		ops := []string{"T1"}
+		for j := 0; j < 3+r.Intn(12); j++ {
+			ops = append(ops, wops[r.Intn(len(wops))])
 		}
 		emit(ops)
 	}
@@ -285,6 +324,101 @@ func suiteStrFun(o *Out, thorough bool, seed int64) {
 				}
 			} else if (got == "V T") != re.MatchString(s) {
 				o.Fail(line(t), "regexp disagrees with RE2 matching")
+			}
+		}
+	}
+	// sizes: the laws at lengths far from the small cases above (thresholds of buffers, caches, clamps); oracle
+	// only, the results are too long to ship to the model
+	{
+		evalBig := func(text string, data map[string]interface{}) (interface{}, error) {
+			src, err := formula.ParseSourceCode([]byte(text))
+			if err != nil {
+				return nil, err
+			}
+			rn := formula.NewRunner()
+			rn.SetThis(data)
+			var v interface{}
+			pan, msg := protect(func() { v, err = rn.Resolve(context.Background(), src.Expression) })
+			if pan {
+				return nil, fmt.Errorf("panic: %s", msg)
+			}
+			return v, err
+		}
+		sizes := []int{255, 256, 4095, 4096, 65535, 65536, 65537, 1000000, 1000001, 1 << 20, 1<<20 + 1, 1<<20 + 2, 1<<20 + 7, 1500000, 1 << 21, 3000001}
+		if thorough {
+			sizes = append(sizes, 1<<24, 1<<24+3, 1<<25+1, 50000000)
+		}
+		for _, n := range sizes {
+			for _, sv := range []string{"", "ab", "xyzzy"} {
+				data := map[string]interface{}{"s": sv, "n": n}
+				nt := func(t string) string { return fmt.Sprintf("NOP\tsizes\t%d:%s:%s", n, sv, t) }
+				for _, f := range []string{"lpad", "rpad"} {
+					o.Case(nt(f), "-", true)
+					v, err := evalBig(f+"(s, '0', n)", data)
+					str, ok := v.(string)
+					if err != nil || !ok {
+						o.Fail(nt(f), fmt.Sprintf("%s(%q, '0', %d) failed: %v", f, sv, n, err))
+						continue
+					}
+					want := strings.Repeat("0", n-len(sv)) + sv
+					if f == "rpad" {
+						want = sv + strings.Repeat("0", n-len(sv))
+					}
+					if str != want {
+						o.Fail(nt(f), fmt.Sprintf("%s(%q, '0', %d) has length %d and is not the padded string of exactly the requested length", f, sv, n, len(str)))
+					}
+				}
+				big := strings.Repeat("ab", n/2) + sv + "c"
+				data["t"] = big
+				data["k"] = len(big) - 3
+				for _, c := range []struct {
+					f    string
+					want interface{}
+				}{
+					{"left(t, k) + right(t, 3) == t", true}, {"len(left(t, k))", float64(len(big) - 3)}, {"len(right(t, k))", float64(len(big) - 3)},
+					{"endWith(t, right(t, k))", true}, {"startWith(t, left(t, k))", true}, {"find(t, 'c')", float64(strings.Index(big, "c"))},
+					{"contains(t, 'bc') == " + fmt.Sprint(strings.Contains(big, "bc")), true}, {"len(mid(t, 1, k))", float64(len(big) - 4)},
+					{"len(replace(t, 'a', 'xy'))", float64(len(strings.ReplaceAll(big, "a", "xy")))}, {"len(upper(t))", float64(len(big))},
+					{"lower(upper(t)) == t", true}, {"len(trim(' ' + t + ' '))", float64(len(big))}, {"len(t + t)", float64(2 * len(big))},
+					{"regexp(t, 'c$')", true}, {"regexp(t, '^(ab)*c$')", sv != "xyzzy"},
+				} {
+					o.Case(nt(c.f), "-", true)
+					v, err := evalBig(c.f, data)
+					if err != nil || v != c.want {
+						o.Fail(nt(c.f), fmt.Sprintf("%s on a string of length %d gave %v, %v; required %v", c.f, len(big), v, err, c.want))
+					}
+				}
+			}
+		}
+	}
+	// history: many distinct patterns and subjects, revisited in another order (a cache keyed or evicted wrongly
+	// gives the answer of another pattern only on a revisit)
+	{
+		var hp []string
+		for i := 0; i < 70; i++ {
+			hp = append(hp, fmt.Sprintf("^p%d$", i), fmt.Sprintf("q{%d}", i%9+1), fmt.Sprintf("[a-%c]%d", 'b'+rune(i%20), i))
+		}
+		hs := func(i int) []string {
+			return []string{fmt.Sprintf("p%d", i), fmt.Sprintf("p%d", i+1), strings.Repeat("q", i%9+1), strings.Repeat("q", i%9), fmt.Sprintf("b%d", i), fmt.Sprintf("%c%d", 'b'+rune(i%20)+1, i)}
+		}
+		order := make([]int, 0, 3*len(hp))
+		for i := range hp {
+			order = append(order, i)
+		}
+		for i := len(hp) - 1; i >= 0; i-- {
+			order = append(order, i)
+		}
+		for i := 0; i < len(hp); i++ {
+			order = append(order, r.Intn(len(hp)))
+		}
+		for _, pi := range order {
+			p := hp[pi]
+			re := regexp.MustCompile(p)
+			for _, s := range hs(pi / 3) {
+				t := "regexp(" + strLit(s) + ", " + strLit(p) + ")"
+				if got := ev(t); (got == "V T") != re.MatchString(s) {
+					o.Fail(line(t), "regexp disagrees with RE2 matching (after a history of other patterns)")
+				}
 			}
 		}
 	}
